@@ -25,7 +25,12 @@ Model of the recursive-descent parser: pkg/syntax/zh/zh_parser.go (token window,
   (6) `ParseProgram` swallows every `；` that directly follows a 导入 statement (`for { tryConsume(TypeStmtSep) }`; before, the `；`
   ended the import section: a following 导入 was syntax error 20, a following statement had an empty statement before it) — NOT
   under the variant either, for the same reason: it changes which texts are accepted and the tree, and `LinImports` (one relation for
-  every variant) now renders `导入《甲》；导入《乙》`.
+  every variant) now renders `导入《甲》；导入《乙》`;
+  (7) `calleeTailParser` (inside `ParseMemberExpr`) records the line of a member expression `x 之 p` / `其 p`
+  (`setStmtCurrentLine(memberExpr, tk)`, `tk` = the member-name token; before, the line stayed 0, so an error raised by the statement
+  `A之不存在` was reported at line 1) — NOT under the variant, for the reason of (5): it changes the tree that is returned, and
+  `LinX` (one relation for every variant) now says "the line of the member-name token" in its clauses `this` and `dot`.  In this
+  line field, too, `Variant.legacy` is the repaired code.
 -/
 import ZnVerif.Model.LexCore
 import ZnVerif.Model.Ast
@@ -507,12 +512,14 @@ def pMulDivTail (el : Expr) : PM σ Expr := do
   | none => pure el
 
 -- ParseMemberExpr
-/-- `calleeTailParser`: the node it builds never gets a line -/
+/-- `calleeTailParser`: the node it builds gets the line of the member-name token (`p.setStmtCurrentLine(memberExpr, tk)`, repair
+(7) of the header; before, it never got a line) -/
 def calleeTail (hasRoot : Bool) (rootType : Nat) (root : Expr) : PM σ Expr := do
   match ← tryConsume ops fuel [cTypeIdentifier] with
   | some tk => do
     let i ← newID ops tk
-    pure (.member 0 rootType (if hasRoot then root else .nil) cMemberID (some i) .nil)
+    let l ← lineOf ops tk
+    pure (.member l rootType (if hasRoot then root else .nil) cMemberID (some i) .nil)
   | none => errPeek v 20
 
 def pMember : PM σ Expr := do
